@@ -61,7 +61,10 @@ def main(argv=None):
             undecided.append(f"lost anchor: {e}")
         if unit is not None:
             for e in unit.build_errors:
-                undecided.append(f"lost anchor: {e}")
+                if e.startswith("note:"):
+                    notes.append(e[5:].strip())     # e.g. a vacuity canary that could not be placed in changed text
+                else:
+                    undecided.append(f"lost anchor: {e}")
             # ------------------------------------------------------------ Verus
             todo = []
             for vf in unit.verus:
